@@ -1,6 +1,9 @@
 package main
 
-import "strings"
+import (
+	"os"
+	"strings"
+)
 
 // constArrayTerm: the array of sort arrSort holding the element term ez
 // everywhere.  cvc5 accepts "(as const ...)" only for value elements; for
@@ -50,4 +53,25 @@ func (x *Exec) needSeqSlice() {
 	x.axioms = append(x.axioms,
 		"(forall ((a (Array Int (_ BitVec 8))) (o Int) (l Int) (n Int)) (! (=> (and (<= 0 n) (<= n l)) (= (seqhead (seq a o l) n) (seq a o n))) :pattern ((seqhead (seq a o l) n))))",
 		"(forall ((a (Array Int (_ BitVec 8))) (o Int) (l Int) (n Int)) (! (=> (and (<= 0 n) (<= n l)) (= (seqtail (seq a o l) n) (seq a (+ o n) (- l n)))) :pattern ((seqtail (seq a o l) n))))")
+}
+
+// variantB writes a copy of the VC with the bare-mod definitions of the wrap
+// macros and returns its path ("" when the file has no macro block).
+func variantB(file string) string {
+	b, err := os.ReadFile(file)
+	if err != nil {
+		return ""
+	}
+	s := string(b)
+	i := strings.Index(s, wrapMarkBegin)
+	j := strings.Index(s, wrapMarkEnd)
+	if i < 0 || j < i || !strings.Contains(s[j:], "(wrap_") {
+		return ""
+	}
+	out := s[:i] + wrapMarkBegin + wrapDefs("B") + s[j:]
+	fb := strings.TrimSuffix(file, ".smt2") + ".b.smt2"
+	if os.WriteFile(fb, []byte(out), 0o644) != nil {
+		return ""
+	}
+	return fb
 }
